@@ -81,20 +81,32 @@ def get_broadcast_change_iter(modified_settings, is_cancel=False):
                                    key=lambda x: (x[0], x[1])):
         # sorted by (point, namespace)
         point, namespace, setting = modified_setting
-        value = setting
-        keys_str = ""
-        while isinstance(value, dict):
-            key, value = next(iter(value.items()))
-            if isinstance(value, dict):
-                keys_str += "[" + key + "]"
-            else:
-                keys_str += key
-                yield {
-                    "change": change,
-                    "point": point,
-                    "namespace": namespace,
-                    "key": keys_str,
-                    "value": str(value)}
+        for keys_str, value in _iter_setting_items(setting):
+            yield {
+                "change": change,
+                "point": point,
+                "namespace": namespace,
+                "key": keys_str,
+                "value": str(value)}
+
+
+def _iter_setting_items(setting, sections_str=""):
+    """Yield (key, value) for every item of a (nested) broadcast setting.
+
+    A setting may hold more than one item, all of them are reported:
+
+    >>> list(_iter_setting_items(
+    ...     {"environment": {"A": "1", "B": "2"}, "script": "true"}
+    ... ))
+    [('[environment]A', '1'), ('[environment]B', '2'), ('script', 'true')]
+
+    """
+    for key, value in setting.items():
+        if isinstance(value, dict):
+            yield from _iter_setting_items(
+                value, sections_str + "[" + key + "]")
+        else:
+            yield sections_str + key, value
 
 
 def get_broadcast_change_report(modified_settings, is_cancel=False):
